@@ -350,7 +350,7 @@ def run(ctx):
             if e[0] == "len" and show(e[1]) == "lin":
                 return ("LEN",)
             return None
-        half = None
+        HALF = Poly.atom(("idiv", L.key(), Poly.const(2).key()))
         pushes = [(bb, t) for bb, t in fl.calls() if t["callee"]["k"] == "fndef" and cm.callee_name(t["callee"]).endswith("Vec::<T, A>::push")]
         okp = False
         for bb, t in pushes:
@@ -359,8 +359,8 @@ def run(ctx):
                 m, va = v[2]
                 if m[0] == "idx" and va[0] == "idx" and show(m[1]) == "lin" and show(va[1]) == "lin":
                     d = to_poly(va[2], atomize) - to_poly(m[2], atomize)
-                    # d = len/2  (Div by constant 2 -> coefficient 1/2 on LEN)
-                    if d == L * Poly.const(1) * Poly.const(1).__class__({(): __import__("fractions").Fraction(1, 2)}):
+                    # d = len / 2 (truncating: the opaque half H = lin.len() div 2)
+                    if d == HALF:
                         okp = True
         if okp:
             ctx.ok("C04-R4", "from_linear: parameters[i] = (lin[i], lin[i + lin.len()/2]): means first, then variances", fl.loc())
@@ -373,8 +373,8 @@ def run(ctx):
             for x in walk(m):
                 if x[0] == "call" and x[1].endswith("<impl [T]>::get") and show(x[2][0]) == "lin":
                     pol = to_poly(x[2][1], atomize)
-                    # (len/2)*2 : with integer division this is the even part; as a polynomial LEN
-                    if pol == L:
+                    # 2 * (len div 2): the element after the two halves
+                    if pol == HALF * Poly.const(2):
                         okm = True
             if okm:
                 ctx.ok("C04-R4", "from_linear: msd = lin.get(2*len) (the optional trailing weight)", fl.loc())
@@ -382,7 +382,7 @@ def run(ctx):
                 ctx.fail("C04-R4", fl.path, "msd", "msd is %s" % show(m)[:120], fl.loc())
         # loop covers 0..len
         rng = [x for bb, t in fl.calls() for x in walk(eb.at(bb).call(t)) if x[0] == "agg" and x[1].endswith("Range::Range")]
-        if any(x[2][0][0] == "c" and x[2][0][1] == 0 and to_poly(x[2][1], atomize) == L * Poly({(): __import__("fractions").Fraction(1, 2)}) for x in rng):
+        if any(x[2][0][0] == "c" and x[2][0][1] == 0 and to_poly(x[2][1], atomize) == HALF for x in rng):
             ctx.ok("C04-R4", "from_linear: i ranges over 0..len", fl.loc())
         else:
             ctx.fail("C04-R4", fl.path, "range", "the pairing loop does not cover 0..len", fl.loc())
